@@ -13,10 +13,17 @@ META = {
             "(left power p; right power p for left-assoc infix, just below p for right-assoc/prefix); the model of PrecClimber::climb gives the same tree for "
             "infix-only tables with one associativity per level; PrattParser::op and ConstPrattParser::new_const(pratt_precedence![..]) of one declaration "
             "give the same affixes with levels differing by PREC_STEP and the same parse; PrecClimber::new and PrattParser::op of one duplicate-free infix "
-            "declaration give the same parse. Theorem C13_model_fuel_adequate: the model never reports OutOfFuel. Every run drives the real PrattParser, "
-            "ConstPrattParser (pratt_precedence! on 31 fixed shapes, new_const on runtime arrays) and PrecClimber through PairsBuilder pairs on all tables "
-            "with <= 3 (thorough 4) operators x all short token strings + all longer well-formed ones + random larger tables/sequences, and compares trees "
-            "and panic kinds with the extracted models (correspondence) and with the extracted specification (property oracle).",
+            "declaration give the same parse. Theorem C13_model_fuel_adequate: the model never reports OutOfFuel. Theorem C13_every_constructor (levels unbounded): "
+            "PrecClimber::new_const on any slice (any order, any precedence values, one associativity per value) builds the shunting-yard tree of the table "
+            "the slice denotes and, without a repeated rule, the same tree in every order of its entries; prec_climber![..] builds the vector PrecClimber::new "
+            "builds; ConstPrattParser::new_const on any accepted array has levels >= 1. Every run drives every public constructor - PrattParser::new().op(..), "
+            "ConstPrattParser::new_const via pratt_precedence! (31 small shapes, one operator per level for 6..64/100/260/300 levels, two per level for 3..40 levels) "
+            "and on runtime arrays of 1..520 entries, PrecClimber::new, PrecClimber::new_const (declaration order, reversed, arbitrary slices with arbitrary u32 "
+            "precedences) and prec_climber! (127 tables: operators in every order relative to the rule enum, up to 46 levels) - through PairsBuilder pairs on all "
+            "tables with <= 3 (thorough 4) operators x all short token strings + all longer well-formed ones + random larger tables/sequences + random tables with "
+            "1..300 levels and rule numbers spread over the u8 range (a few beyond) whose sequences put the tightest levels next to the loosest, and compares trees "
+            "and panic kinds with the extracted models (correspondence) and with the extracted specification (property oracle). When only the correspondence or a "
+            "proof breaks, an escalated search (variants of the differing tables x many sequences) looks for a failing input of the property.",
     "note": "Trusted: Coq kernel; extraction (ExtrOcamlBasic only); harness/runner; BTreeMap, Peekable and the closures modelled by their documented meaning "
             "(association list with shadowing, list head/tail, free tree constructors). Not modelled: u32 overflow of `prec += PREC_STEP` (> 4e8 levels), "
             "native stack depth, the write-only has_* flags. Levels are unobservable through the API, so a change of PREC_STEP to any value >= 1 is (correctly) not reported.",
@@ -27,8 +34,13 @@ META = {
 
 LEGEND = ("case T;<maps>;<decl>;<tokens>: maps = map_prefix/map_postfix/map_infix supplied (0/1); decl = levels joined by ',' (later binds tighter), "
           "op = <rule letter><p|q|l|r> (prefix, postfix, infix left, infix right); tokens = rule letters, a letter not in the table is a primary. "
-          "Observation P=PrattParser, C=ConstPrattParser via pratt_precedence!, N=ConstPrattParser::new_const on an array, K=PrecClimber on the infix operators; "
-          "trees are in-order S-expressions of <letter><token index>, !KIND is a panic. case N;<maps>;<entries>;<tokens>: direct new_const, entry = chain + '+'/'-' flag.")
+          "case W;<maps>;<decl>;<tokens>: the same with numeric rules (u16): ops of a level joined by '.', tokens = numbers joined by '.'. "
+          "Observation P=PrattParser::new().op(..), C=ConstPrattParser::new_const(pratt_precedence![..]), N=ConstPrattParser::new_const on a runtime array "
+          "(more than 40 entries: padded to the next of 48/64/100/130/260/300/520 by repeating the last entry on its level), K=PrecClimber::new on the infix "
+          "operators, S=PrecClimber::new_const on the slice `new` builds, R=new_const on that slice reversed, M=prec_climber![..] (harness enum a..z A..Z); "
+          "'-' = not driven for this table. Trees are in-order S-expressions of <letter><token index> (W: <number>@<token index>), !KIND is a panic. "
+          "case N;<maps>;<entries>;<tokens>: direct new_const, entry = chain + '+'/'-' flag. case L;<entries>;<tokens>: PrecClimber::new_const on exactly "
+          "that slice, entry = <rule number><l|r><u32 precedence>.")
 
 
 def pest_only_build(timeout=900):
@@ -41,10 +53,10 @@ def pest_only_build(timeout=900):
     main_toml = open(os.path.join(HARNESS, "Cargo.toml")).read()
     profile = main_toml[main_toml.index("[profile.release]"):] if "[profile.release]" in main_toml else ""
     toml = ('[package]\nname = "pvharness"\nversion = "0.0.0"\nedition = "2021"\npublish = false\n\n[workspace]\n\n'
-            '[dependencies]\npest = { path = "%s/pest" }\n\n%s' % (REPO.rstrip("/"), profile))
+            '[dependencies]\npest = { path = "%s/pest", features = ["const_prec_climber"] }\n\n%s' % (REPO.rstrip("/"), profile))
     write_if_changed(os.path.join(d, "Cargo.toml"), toml)
     # the helpers of src/lib.rs without the sub-modules other properties added (they need the other pest crates)
-    lib = re.sub(r"(?m)^\s*(pub\s+)?mod\s+\w+\s*;.*$", "", open(os.path.join(HARNESS, "src", "lib.rs")).read())
+    lib = re.sub(r"(?m)^(\s*#\[cfg[^\n]*\]\s*\n)?\s*(pub\s+)?mod\s+\w+\s*;.*$", "", open(os.path.join(HARNESS, "src", "lib.rs")).read())
     write_if_changed(os.path.join(d, "src", "lib.rs"), lib)
     sh("cp %s/src/bin/c13.rs %s/src/bin/c13.rs; rm -rf %s/.cargo; cp -r %s/.cargo %s/.cargo; cp %s/Cargo.lock %s/Cargo.lock"
        % (HARNESS, d, d, HARNESS, d, REPO, d))
@@ -74,8 +86,8 @@ def one(hbin, runner, case):
     for line in out.split("\n"):
         if "\t" in line and not line.startswith("#"):
             impl = line.split("\t", 1)[1]
-    rc2, out2 = sh("%s one '%s' | %s" % (hbin, case, runner), timeout=60)
-    m, _, _ = parse_runner_output(out2)
+    rc2, out2 = sh(runner, timeout=60, stdin=out.encode())
+    m, _, _ = parse_runner_output(out2 if rc == 0 else out + "\n" + out2)   # a hang is reported by the harness itself
     return m, impl
 
 
@@ -84,61 +96,76 @@ def disagrees(hbin, runner, case, kind):
     return any(x["kind"] == kind for x in m), m
 
 
-def minimise(hbin, runner, case, kind):
-    """Greedy shrinking of a T/N case: drop tokens, then drop operators of the declaration, while the disagreement persists."""
+def split_case(case):
+    """T/W case -> (head, maps, levels as lists of operator strings, tokens as a list) or None."""
     f = case.split(";")
-    if len(f) != 4:
-        return case
+    if len(f) != 4 or f[0] not in ("T", "W"):
+        return None
     head, maps, decl, toks = f
+    if head == "T":
+        levels = [[l[j:j + 2] for j in range(0, len(l), 2)] for l in decl.split(",") if l]
+        return head, maps, levels, list(toks)
+    return head, maps, [[o for o in l.split(".") if o] for l in decl.split(",") if l], [t for t in toks.split(".") if t]
 
+
+def join_case(head, maps, levels, toks):
+    if head == "T":
+        return ";".join([head, maps, ",".join("".join(l) for l in levels), "".join(toks)])
+    return ";".join([head, maps, ",".join(".".join(l) for l in levels), ".".join(toks)])
+
+
+def case_size(case):
+    """order in which differing cases are preferred as the one to report: those the shrinker understands first, then by size"""
+    c = split_case(case)
+    return (0, len(c[3]), sum(len(l) for l in c[2]), len(case)) if c else (1, len(case.split(";")[-1]), 0, len(case))
+
+
+def minimise(hbin, runner, case, kind):
+    """Greedy shrinking of a T/W case: drop runs of tokens, then runs of levels and single operators of the declaration
+    (run lengths halving down to 1), while the disagreement persists."""
+    c = split_case(case)
+    if not c:
+        return case
+    head, maps, levels, toks = c
     deadline = time.time() + 100      # a hanging parser costs 5 s per probe (watchdog): bound the shrinking
 
-    def ok(d, t):
-        if time.time() > deadline:
+    def ok(lv, t):
+        if time.time() > deadline or not lv:
             return False
-        return bool(d) and disagrees(hbin, runner, ";".join([head, maps, d, t]), kind)[0]
+        return disagrees(hbin, runner, join_case(head, maps, lv, t), kind)[0]
 
-    changed = True
-    rounds = 0
-    while changed and rounds < 6:
-        changed = False
-        rounds += 1
-        i = 0
-        while i < len(toks):
-            cand = toks[:i] + toks[i + 1:]
-            if ok(decl, cand):
-                toks, changed = cand, True
-            else:
-                i += 1
-        # pairs of adjacent tokens (operator + operand)
-        i = 0
-        while i + 1 < len(toks):
-            cand = toks[:i] + toks[i + 2:]
-            if ok(decl, cand):
-                toks, changed = cand, True
-            else:
-                i += 1
-        if head == "T":
-            levels = [[l[j:j + 2] for j in range(0, len(l), 2)] for l in decl.split(",") if l]
-            li = 0
-            while li < len(levels):
-                oi = 0
-                removed_level = False
-                while oi < len(levels[li]):
-                    cand_levels = [list(l) for l in levels]
-                    del cand_levels[li][oi]
-                    cand_levels = [l for l in cand_levels if l]
-                    cand = ",".join("".join(l) for l in cand_levels)
-                    if ok(cand, toks):
-                        removed_level = len(cand_levels) < len(levels)
-                        levels, decl, changed = cand_levels, cand, True
-                        if removed_level:
-                            break
-                    else:
-                        oi += 1
-                if not removed_level:
-                    li += 1
-    return ";".join([head, maps, decl, toks])
+    def shrink_list(xs, test):
+        """remove runs of elements of xs while test(remaining) holds"""
+        n = max(1, len(xs) // 2)
+        while n >= 1:
+            i = 0
+            while i < len(xs):
+                cand = xs[:i] + xs[i + n:]
+                if len(cand) < len(xs) and test(cand):
+                    xs = cand
+                else:
+                    i += n
+            n //= 2
+        return xs
+
+    for _ in range(4):
+        before = (len(toks), sum(len(l) for l in levels))
+        toks = shrink_list(toks, lambda t: ok(levels, t))
+        levels = shrink_list(levels, lambda lv: ok(lv, toks))
+        li = 0
+        while li < len(levels):          # single operators of the levels that remain
+            oi = 0
+            while oi < len(levels[li]) and len(levels[li]) > 1:
+                cand = [list(l) for l in levels]
+                del cand[li][oi]
+                if ok(cand, toks):
+                    levels = cand
+                else:
+                    oi += 1
+            li += 1
+        if (len(toks), sum(len(l) for l in levels)) == before:
+            break
+    return join_case(head, maps, levels, toks)
 
 
 def run(tier, seed, replay=None):
@@ -146,7 +173,7 @@ def run(tier, seed, replay=None):
     thm = check_theorems("C13")
     proof_coverage(res, thm, "make -C coq props/C13.vo (coqc 8.16.1, full .vo build) + Print Assumptions" +
                    ("; coqchk -o PV.props.C13" if tier != "quick" else ""), BASE_TRUST + [
-        "models written by hand: coq/Pratt/Model.v (pest/src/pratt_parser.rs), coq/Pratt/Climber.v (pest/src/prec_climber.rs); "
+        "models written by hand: coq/Pratt/Model.v (pest/src/pratt_parser.rs), coq/Pratt/Climber.v (pest/src/prec_climber.rs incl. new_const and prec_climber!); "
         "BTreeMap = association list with shadowing, Peekable = list, closures = free tree constructors; u32 overflow of prec += PREC_STEP not modelled",
         "specification written by hand: coq/Pratt/Shunt.v (two-stack shunting-yard with the binding powers of the property text)",
     ])
@@ -199,29 +226,68 @@ def run(tier, seed, replay=None):
     if tier == "quick":
         nops, len_all, len_wf, shards, nrand, rcount = 3, 5, 8, 8, 8, 15000
         big = (4, 3, 7)          # tables with exactly 4 operators: shorter strings
+        wide_tables, wide_per, fam = 250, 6, (4, 7, 150)
     else:
         nops, len_all, len_wf, shards, nrand, rcount = 4, 5, 9, 16, 16, 100000
         big = (5, 3, 7)          # tables with exactly 5 operators (16 splits x 1024 affix choices)
+        wide_tables, wide_per, fam = 3000, 8, (5, 8, 2000)
     cmds += ["exh %d %d %d %d %d" % (nops, len_all, len_wf, i, shards) for i in range(shards)]
     cmds += ["exh %d %d %d %d %d %d" % (big[0], big[1], big[2], i, shards, big[0]) for i in range(shards)]
     cmds += ["random %d %d %d" % (rcount, seed * 1000 + i, len_wf + 1) for i in range(nrand)]
+    cmds += ["wide %d %d %d" % (wide_tables, seed * 1000 + 500 + i, wide_per) for i in range(nrand)]
+    cmds += ["macrofam %d %d %d %d" % (fam[0], fam[1], fam[2], seed)]
     mism, stats = run_cases(hbin, runner, cmds, timeout=150 if tier == "quick" else 2400)
 
     spec_m = [m for m in mism if m["kind"] == "spec"]
     model_m = [m for m in mism if m["kind"] == "model"]
     other_m = [m for m in mism if m["kind"] not in ("spec", "model")]
+
+    # Escalated search, only after something broke without a failing input of the property: the correspondence (the real
+    # parsers differ from the model somewhere) or a proof obligation.  Start from the cases that differ: variants of their
+    # tables (mirrored rule numbers, reversed levels, every pair of operators alone, extended to 30..300 levels) x all short
+    # well-formed sequences + many random ones; after a broken proof also a larger budget of the ordinary generators.
+    escalated = None
+    if not spec_m and (model_m or not thm["ok"]):
+        t_esc = time.time()
+        starts, seen_decl = [], set()
+        for m in sorted(model_m, key=lambda m: case_size(m["case"])):
+            c = split_case(m["case"])
+            if not c:
+                continue
+            key = (c[0], tuple(tuple(l) for l in c[2]))
+            if key not in seen_decl:
+                seen_decl.add(key)
+                starts.append(join_case(c[0], "111", c[2], c[3]))
+            if len(starts) >= 8:
+                break
+        ecmds = ["around '%s' 400 %d" % (c, seed * 1000 + 900 + i) for i, c in enumerate(starts)]
+        if not thm["ok"] or not starts:
+            ecmds += ["random %d %d %d" % (4 * rcount, seed * 1000 + 100 + i, 3) for i in range(nrand)]
+            ecmds += ["wide %d %d %d" % (4 * wide_tables, seed * 1000 + 700 + i, wide_per + 4) for i in range(nrand)]
+        emism, estats = run_cases(hbin, runner, ecmds, timeout=240 if tier == "quick" else 1800)
+        spec_m = [m for m in emism if m["kind"] == "spec"]
+        other_m += [m for m in emism if m["kind"] not in ("spec", "model")]
+        escalated = {"started_from": starts, "commands": len(ecmds), "evaluations": estats.get("evaluations", 0),
+                     "well_formed": estats.get("well_formed", 0), "well_formed_on_26plus_levels": estats.get("well_formed_on_26plus_levels", 0),
+                     "spec_mismatches": len(spec_m), "model_mismatches": len([m for m in emism if m["kind"] == "model"]),
+                     "wall_s": round(time.time() - t_esc, 1),
+                     "what": "for each differing table: itself, rule numbers mirrored, levels reversed, every pair of its operators alone (both level orders), "
+                             "extended by fresh one-operator levels to 30/64/130/260/300 levels; each x every well-formed sequence of length <= 7 (tables with <= 4 "
+                             "operators) and 400 random well-formed sequences concentrated on few operators; every constructor runs on each"
+                             + ("; plus 4x the random and many-level budgets with other seeds" if (not thm["ok"] or not starts) else "")}
     if spec_m:
-        worst = min(spec_m, key=lambda m: (len(m["case"].split(";")[-1]), len(m["case"])))
+        worst = min(spec_m, key=lambda m: case_size(m["case"]))
         small = minimise(hbin, runner, worst["case"], "spec")
         _, detail = disagrees(hbin, runner, small, "spec")
         d = detail[0] if detail else worst
+        found_by = "escalated search around " + ", ".join(escalated["started_from"][:3]) if escalated else "generators"
         res.violation("operator-precedence parser builds a tree that differs from the shunting-yard specification on %s: impl %s, %s"
                       % (small, d["impl"], d["expected"]),
-                      {"theorem_or_correspondence": "C13 oracle: real PrattParser / ConstPrattParser / PrecClimber vs extracted Pratt.Shunt",
+                      {"theorem_or_correspondence": "C13 oracle: real PrattParser / ConstPrattParser / PrecClimber (every constructor) vs extracted Pratt.Shunt",
                        "case": small, "impl": d["impl"], "spec": d["expected"], "minimised_from": worst["case"],
-                       "spec_mismatches_seen": len(spec_m), "legend": LEGEND})
+                       "spec_mismatches_seen": len(spec_m), "found_by": found_by, "legend": LEGEND})
     elif model_m:
-        worst = min(model_m, key=lambda m: (len(m["case"].split(";")[-1]), len(m["case"])))
+        worst = min(model_m, key=lambda m: case_size(m["case"]))
         small = minimise(hbin, runner, worst["case"], "model")
         _, detail = disagrees(hbin, runner, small, "model")
         d = detail[0] if detail else worst
@@ -229,13 +295,14 @@ def run(tier, seed, replay=None):
                       "but on no well-formed sequence did a tree differ from the specification" % (small, d["impl"], d["expected"]),
                       {"theorem_or_correspondence": "C13 correspondence: impl vs extracted Pratt.Model / Pratt.Climber",
                        "case": small, "impl": d["impl"], "model": d["expected"], "minimised_from": worst["case"],
-                       "searched": stats, "legend": LEGEND},
+                       "searched": stats, "escalated_search": escalated, "legend": LEGEND},
                       no_failing_input=True)
     for m in other_m[:1]:
         res.violation("harness failure: " + m["impl"], {"theorem_or_correspondence": "C13 correspondence (run)", "log": m["expected"]}, no_failing_input=True)
     if not thm["ok"]:
         res.violation("proof obligation no longer checks: " + "; ".join(thm["problems"]),
-                      {"theorem_or_correspondence": "C13_pratt_precedence_correct (coq/props/C13.v)", "log": thm["log"][-3000:]},
+                      {"theorem_or_correspondence": "C13_pratt_precedence_correct / C13_every_constructor (coq/props/C13.v)", "log": thm["log"][-3000:],
+                       "escalated_search": escalated},
                       no_failing_input=not spec_m)
 
     res.coverage.update({
@@ -246,22 +313,34 @@ def run(tier, seed, replay=None):
                 "length %d..%d; every table with exactly %d operators x every string of length <= %d and every well-formed string of length <= %d; "
                 "tables with <= 2 operators also with every subset of the three closures missing; plus random tables (<= 6 levels x <= 3 operators, "
                 "30%% infix-only, 4%% with a rule declared twice) x mostly well-formed sequences of length %d..40 (15%% with one token replaced/deleted/inserted), "
-                "5%% direct new_const calls with arbitrary level flags / chained operators. Each case runs PrattParser, ConstPrattParser via pratt_precedence! "
-                "(31 shapes), ConstPrattParser::new_const on an array and PrecClimber. non-trivial = well-formed, >= 2 operator tokens, real PrattParser returned a "
+                "5%% direct new_const calls with arbitrary level flags / chained operators, a third with the letters assigned in another order than the "
+                "declaration's; plus %d random tables with 1..300 levels (30%% 1-12, 15%% 13-25, 30%% 26-40, 14%% 41-64, 11%% of 65/100/129/130/255/256/257/260/300; "
+                "1-3 operators per level; rule numbers spread over 0..255, 0..1023 for the largest, a few of 0/255/256/1000/32768/65535; listed ascending / "
+                "descending / in arbitrary order) x %d sequences of length 3..40 each, three quarters of them concentrated on the operators of a few levels that "
+                "include the loosest and the tightest; one in eight of these tables is instead a direct PrecClimber::new_const slice with strictly increasing "
+                "arbitrary u32 precedences (0 and u32::MAX included) in declaration / reverse / sorted / shuffled order; plus the prec_climber! family (every "
+                "infix table with <= 3 operators and one associativity per level x every assignment of a,b,c to its operators, five tables with 26..46 levels) x "
+                "every string of length <= %d, every well-formed one of length <= %d, %d random sequences for the large ones. Each T/W case runs PrattParser, "
+                "ConstPrattParser via pratt_precedence!, ConstPrattParser::new_const on an array, PrecClimber::new, PrecClimber::new_const on the same slice and on "
+                "the reversed slice, and prec_climber! where the table is in the family. non-trivial = well-formed, >= 2 operator tokens, real PrattParser returned a "
                 "tree; distinct by case string (random cases are longer than every exhaustive case)"
-                % (nops, len_all, len_all + 1, len_wf, big[0], big[1], big[2], len_wf + 1),
+                % (nops, len_all, len_all + 1, len_wf, big[0], big[1], big[2], len_wf + 1, wide_tables * nrand, wide_per, fam[0], fam[1], fam[2]),
         "exhaustive": True,
         "exhaustive_bound": "<= %d operators per table, token strings <= %d (all) / <= %d (well-formed); %d operators: <= %d / <= %d; the theorem itself is unbounded"
                             % (nops, len_all, len_wf, big[0], big[1], big[2]),
-        "samples": ["T;111;ap,blcr,dq;axbxcxbxd", "T;111;ap,bl;axbx", "T;111;alcl,br,dp,eq;dxaxbxbxcdxe", "T;110;al;xax", "N;111;al+,br-,cp+;cxaxbx"] + corpus[:3],
-        "histogram": {k: stats.get(k, 0) for k in ("well_formed", "pratt_panics", "infix_only_well_formed", "const_via_macro")},
+        "samples": ["T;111;ap,blcr,dq;axbxcxbxd", "T;111;ap,bl;axbx", "T;111;alcl,br,dp,eq;dxaxbxbxcdxe", "T;110;al;xax", "N;111;al+,br-,cp+;cxaxbx",
+                    "T;111;cl,albl;xaxcxbx", "W;111;12l,200r.7p,65535q;7.5.12.5.200.5.65535", "L;12l5,7r4000000000;1.12.1.7.1"] + corpus[:3],
+        "histogram": {k: stats.get(k, 0) for k in ("well_formed", "pratt_panics", "infix_only_well_formed", "const_via_macro", "climber_via_macro",
+                                                   "well_formed_on_26plus_levels", "cases_65plus_levels", "cases_257plus_levels")},
+        "escalated_search": escalated if escalated else "not run (nothing broke)",
         "runner_cases": stats.get("cases", 0),
         "mismatches": len(mism),
         "legend": LEGEND,
     })
     if build_note:
         res.coverage["build_note"] = build_note
-    res.assumptions = ["rule type u8, tokens built with pest::iterators::PairsBuilder (one byte per token); the theorem is parametric in the token payload",
+    res.assumptions = ["rule type u16 (enum Rule for prec_climber!), tokens built with pest::iterators::PairsBuilder (one byte per token); the theorem is parametric in the token payload",
+                       "L cases: the u32 precedences are replaced by their ranks before the extracted model / specification run (both only compare precedences)",
                        "levels are not observable through the public API: only trees and panic kinds are compared",
                        "harness built with overflow-checks (prec - 1 at level 0 = panic in the model; unreachable for declared tables)"]
     return res.finish()
